@@ -185,6 +185,7 @@ type observation struct {
 	returned int64
 	reads    int
 	packets  int
+	note     string
 }
 
 // debugClients: clients are built with debug = true (the driver then prints what it sends and
@@ -249,6 +250,52 @@ func preludeScenario(op *spec.Op, path string, maxLen int, prelude string) e1.Sc
 	return sc
 }
 
+// relatedSerialsMode: the first datagram is a well-formed reply of the right kind from ANOTHER controller
+// whose serial number is related to the addressed one (one bit or one byte different, bytes swapped,
+// truncated, shifted ...); the second is S's own reply. Another controller's reply is never S's.
+const relatedSerialsMode = "@related-serial-numbers"
+
+var wrongSerialClass = func() int {
+	for i, c := range classNames {
+		if c == "wrong-serial" {
+			return i
+		}
+	}
+	panic("no wrong-serial class")
+}()
+
+func relatedSerials() []uint32 {
+	S := serial
+	out := []uint32{}
+	seen := map[uint32]bool{S: true}
+	add := func(v uint32) {
+		if !seen[v] {
+			seen[v] = true
+			out = append(out, v)
+		}
+	}
+	for b := 0; b < 32; b++ {
+		add(S ^ 1<<b)
+	}
+	for k := 0; k < 4; k++ {
+		add(S ^ 0xff<<(8*k))
+		add(S &^ (0xff << (8 * k)))
+		add(S | 0xff<<(8*k))
+	}
+	add(S>>24 | S>>8&0xff00 | S<<8&0xff0000 | S<<24) // byte order reversed
+	add(S>>16 | S<<16)
+	add(S >> 8)
+	add(S << 8)
+	add(S & 0xffff)
+	add(S &^ 0xffff)
+	add(^S)
+	add(-S)
+	add(S - 1)
+	add(S + 0x01000000)
+	add(S % 100000000)
+	return out
+}
+
 func scenarioZ(op *spec.Op, path string, maxLen int, lengths bool, burst bool, port uint16) e1.Scenario {
 	return scenarioP(op, path, maxLen, lengths, burst, port, "")
 }
@@ -260,6 +307,9 @@ func scenarioP(op *spec.Op, path string, maxLen int, lengths bool, burst bool, p
 	name := fmt.Sprintf("%s/%s/len<=%d", op.Name, path, maxLen)
 	if lengths {
 		name = fmt.Sprintf("%s/%s/every-length-then-valid", op.Name, path)
+	}
+	if lengths && prelude == relatedSerialsMode {
+		name = fmt.Sprintf("%s/%s/related-serial-number-then-valid", op.Name, path)
 	}
 
 	body := func() {
@@ -296,6 +346,18 @@ func scenarioP(op *spec.Op, path string, maxLen int, lengths bool, burst bool, p
 					return []farm.Reply{{Delay: T / 100, Data: d}}
 				}
 				return nil
+			}
+			if lengths && prelude == relatedSerialsMode {
+				// a well-formed reply from a controller whose serial number is related to S, then S's own
+				rs := relatedSerials()
+				sn := rs[vs.Choose(len(rs), "related-serial-number")]
+				d := spec.EncodeReply(op, serial, marked(op, 0))
+				binary.LittleEndian.PutUint32(d[4:8], sn)
+				v := spec.EncodeReply(op, serial, marked(op, 1))
+				cur.seq = []int{wrongSerialClass, 1}
+				cur.sent = [][]byte{d, v}
+				cur.note = fmt.Sprintf("first datagram carries serial number %d (0x%08x), asked %d (0x%08x)", sn, sn, serial, serial)
+				return []farm.Reply{{Delay: T / 10, Data: d}, {Delay: 2 * T / 10, Data: v}}
 			}
 			if lengths {
 				n := vs.Choose(1100, "datagram-length")
@@ -338,7 +400,7 @@ func scenarioP(op *spec.Op, path string, maxLen int, lengths bool, burst bool, p
 		}
 		vs.Net().Env = &farm.Farm{Controllers: []*farm.Controller{ctrl}}
 		u := client(path)
-		if prelude != "" && prelude != "listen=bind" {
+		if prelude != "" && prelude != "listen=bind" && prelude != relatedSerialsMode {
 			inPrelude = true
 			for _, part := range strings.Split(prelude, "+") {
 				name := part[:strings.Index(part, "/")]
@@ -365,6 +427,9 @@ func scenarioP(op *spec.Op, path string, maxLen int, lengths bool, burst bool, p
 		}
 		label := fmt.Sprint(o.seq)
 		add := func(key, what string) {
+			if o.note != "" {
+				what += "; " + o.note
+			}
 			viols = append(viols, e1.Viol{Key: path + "/" + key, What: fmt.Sprintf("%s; datagram classes %v", what, names(o.seq))})
 		}
 		if open := vs.Net().OpenSockets(); len(open) > 0 {
@@ -505,6 +570,11 @@ func main() {
 		for _, name := range sweep {
 			for _, path := range []string{"broadcast", "udp", "tcp"} {
 				scenarios = append(scenarios, scenarioX(spec.OpByName(name), path, 2, true))
+			}
+		}
+		for _, name := range []string{"GetStatus", "OpenDoor", "PutCard"} {
+			for _, path := range []string{"broadcast", "udp", "tcp"} {
+				scenarios = append(scenarios, scenarioP(spec.OpByName(name), path, 2, true, false, 0, relatedSerialsMode))
 			}
 		}
 	}
